@@ -4,3 +4,5 @@ import Xrfmv.Props.C06
 #print axioms Xrfmv.Props.C06.depth_bound
 #print axioms Xrfmv.Props.C06.min_splits_honoured
 #print axioms Xrfmv.Props.C06.overlap_hypothesis
+#print axioms Xrfmv.Props.C06.sizes_independent_of_data
+#print axioms Xrfmv.Props.C06.same_size_same_shape
